@@ -84,6 +84,17 @@ Section Match.
     | _ => false
     end.
 
+  (* the `for _ in 0..expected_many_captures` loop of a Many pattern *)
+  Definition m_items (ms : pat -> sx -> bool) (sub : pat) : nat -> list sx -> option (list sx) :=
+    fix items (n : nat) (es : list sx) {struct n} : option (list sx) :=
+      match n with
+      | O => Some es
+      | S n' => match es with
+                | e :: es' => if ms sub e then items n' es' else None
+                | [] => None
+                end
+      end.
+
   (* the loop of match_list_pattern over the patterns, parameterised by the matcher of one pattern *)
   Definition match_go_gen (ms : pat -> sx -> bool) : list pat -> mstate -> bool :=
     fix go (ps : list pat) (st : mstate) {struct ps} : bool :=
@@ -106,15 +117,7 @@ Section Match.
             | _ => false                                  (* Rest not last: unreachable!() *)
             end
         | PMany sub =>
-            let fix items (n : nat) (es : list sx) : option (list sx) :=
-              match n with
-              | O => Some es
-              | S n' => match es with
-                        | e :: es' => if ms sub e then items n' es' else None
-                        | [] => None
-                        end
-              end in
-            match items (m_k st) (m_es st) with
+            match m_items ms sub (m_k st) (m_es st) with
             | Some es' => go ps' {| m_ok := true; m_es := es'; m_k := m_k st; m_tail := m_tail st; m_imp := m_imp st |}
             | None => false
             end
@@ -187,6 +190,19 @@ Definition cprep_k (ps : list pat) (n : nat) (imp : bool) : nat :=
 (* result: bindings (newest first) and the identifiers whose BindingKind is Many *)
 Definition cres := res (env * list string).
 
+Definition c_items (co : pat -> sx -> cres) (sub : pat) : nat -> list sx -> res (list env * list string * list sx) :=
+  fix items (n : nat) (es : list sx) {struct n} : res (list env * list string * list sx) :=
+    match n with
+    | O => Ok ([], [], es)
+    | S n' => match es with
+              | e :: es' =>
+                  do (b, kk) <- co sub e;
+                  do (bs, kks, rest) <- items n' es';
+                  Ok (b :: bs, kk ++ kks, rest)
+              | [] => Ok ([], [], [])
+              end
+    end.
+
 Definition collect_go_gen (co : pat -> sx -> cres) : list pat -> list sx -> nat -> bool -> cres :=
   fix go (ps : list pat) (es : list sx) (k : nat) (imp : bool) {struct ps} : cres :=
   match ps with
@@ -205,18 +221,7 @@ Definition collect_go_gen (co : pat -> sx -> cres) : list pat -> list sx -> nat 
           do (b2, k2) <- go ps' (tl es) k imp;
           Ok (b2 ++ b1, k2 ++ k1)
       | PMany sub =>
-          let fix items (n : nat) (es : list sx) : res (list env * list string * list sx) :=
-            match n with
-            | O => Ok ([], [], es)
-            | S n' => match es with
-                      | e :: es' =>
-                          do (b, kk) <- co sub e;
-                          do (bs, kks, rest) <- items n' es';
-                          Ok (b :: bs, kk ++ kks, rest)
-                      | [] => Ok ([], [], [])
-                      end
-            end in
-          do (bs, kks, rest) <- items k es;
+          do (bs, kks, rest) <- c_items co sub k es;
           let vars := pvars sub in
           let b1 := map (fun x => (x, SL (flat_map (fun b => match lookup x b with Some v => [v] | None => [] end) bs) false)) vars in
           do (b2, k2) <- go ps' rest k imp;
